@@ -19,14 +19,14 @@ LEVEL = "model_checking"
 ENCODES = ["pycel.excellib:_numerics", "pycel.excellib:sum_", "pycel.excellib:sumproduct",
            "pycel.lib.stats:average", "pycel.lib.stats:count", "pycel.lib.stats:max_", "pycel.lib.stats:min_",
            "pycel.excelformula:FunctionNode.func_subtotal", "pycel.excelutil:flatten"]
-BOUNDS = ["rectangles 1x1..2x3/3x2 (quick), up to 3x3 and 1x6 (thorough); cells int |v|<=99 | bool | None | ASCII text len<=2",
+BOUNDS = ["rectangles 1x1..1x3 (quick), + 2x2, 3x1, 1x4 (thorough); each cell a solver-chosen class {number, logical, blank, text, error code} with symbolic int value |v|<=99",
           "at most two injected error codes at solver-chosen positions",
           "permutation = one solver-chosen transposition; partition = one solver-chosen split point (row-major)",
           "SUMPRODUCT: two equally shaped ranges up to 2x2, integer/None/bool/text cells"]
 ASSUMPTIONS = ["floats as exact reals (AVERAGE's quotient)"]
 
-SHAPES_Q = ((1, 1), (1, 2), (2, 1), (1, 3), (2, 2))
-SHAPES_T = SHAPES_Q + ((3, 1), (2, 3), (3, 2), (1, 5))
+SHAPES_Q = ((1, 1), (1, 2), (2, 1), (1, 3))
+SHAPES_T = SHAPES_Q + ((2, 2), (3, 1), (1, 4))
 TEXTS = ("7", "x")
 
 FUNCS = {"sum": sum_, "average": average, "max": max_, "min": min_, "count": count}
@@ -243,11 +243,11 @@ def obligations(tier):
             heavy = name in ("max", "min")
             if n > 4 and heavy and tier == "quick":
                 continue
-            to = 120 if n <= 3 else (300 if n == 4 else 1500)
+            to = 120 if n <= 3 else 1800
             add(f"aggregate[{name},{r}x{c}]", "ob_aggregate", (name, r, c), sig(n), to, "aggregate")
-            if 2 <= n <= (3 if tier == "quick" else 4) and (r, c) in ((1, 2), (1, 3), (2, 2)):
+            if 2 <= n <= (3 if tier == "quick" else 4) and (r, c) in ((1, 2), (1, 3)):
                 add(f"permute[{name},{r}x{c}]", "ob_permute", (name, r, c), sig(n, "i: int, j: int"), to * 2, "permute")
-    for n in ((2, 3) if tier == "quick" else (2, 3, 4, 5)):
+    for n in ((2, 3) if tier == "quick" else (2, 3, 4)):
         add(f"additive[n={n}]", "ob_additive", (n,), sig(n, "k: int"), 120 if n <= 3 else 900, "additive")
     for name in FUNCS:
         add(f"text_ignored[{name}]", "ob_text_ignored", (name,), None, 60, "aggregate")
